@@ -229,8 +229,12 @@ class Analyzer:
                 if spec.recv is None:
                     return True
                 return bool(spec.recv.search(src(c[2])))
-            if c[0] == 'func' and isinstance(call.func, ast.Attribute) and \
+            if c[0] in ('func', 'ext') and \
+                    isinstance(call.func, ast.Attribute) and \
                     call.func.attr == spec.value:
+                # attribute call on a module-level object of a library
+                # (flask.current_app.bert_e.put_job) or an exactly resolved
+                # method
                 if spec.recv is None:
                     return True
                 return bool(spec.recv.search(src(call.func.value)))
